@@ -22,7 +22,8 @@
 (***************************************************************************)
 EXTENDS Naturals, Sequences, FiniteSets, TLC, Json
 
-CONSTANTS MaxLen, Calls, TargetSets, IgnoreMaps, EMIT
+CONSTANTS MaxLen, Calls, TargetSets, IgnoreMaps, EMIT,
+          ResetCalls      \* the calls that also occur glued to a preceding reset (subset of Calls)
 
 VARIABLES ign, hist
 vars == <<ign, hist>>
@@ -89,11 +90,19 @@ Call(c) ==
   /\ ign' = ign
   /\ Record([kind |-> "call", call |-> c])
 
+\* a reset directly followed by a call (one step of the bounded search, two entries of the history): what the next
+\* request sees after the options were reset - keeps "set, call, reset, call" within the bound of three steps
+ResetThenCall(c) ==
+  /\ ign' = DefaultIgn
+  /\ hist' = Append(Append(hist, [op |-> [kind |-> "reset"], ign |-> DefaultIgn]),
+                    [op |-> [kind |-> "call", call |-> c], ign |-> DefaultIgn])
+
 Next == /\ Len(hist) < MaxLen
         /\ \/ \E S \in TargetSets, via \in {"api", "flags"} : SetTargets(S, via)
            \/ \E m \in IgnoreMaps : SetIgnores(m)
            \/ Reset
            \/ \E c \in Calls : Call(c)
+           \/ \E c \in ResetCalls : ResetThenCall(c)
 Spec == Init /\ [][Next]_vars
 
 (***************************************************************************)
@@ -103,10 +112,12 @@ TypeOK == \A p \in Paths : ign[p].all \in BOOLEAN /\ ign[p].keys \subseteq {"exe
 
 \* library calls never change the ignore options (action property)
 CallsArePure == [][(\E c \in Calls : hist' = Append(hist, [op |-> [kind |-> "call", call |-> c], ign |-> ign'])) => ign' = ign]_vars
+\* a call right after a reset sees the default options
 
 \* resetting restores the original behaviour
 LastOp == hist[Len(hist)].op
-ResetRestores == (Len(hist) > 0 /\ LastOp.kind = "reset") => ign = DefaultIgn
+ResetRestores == /\ (Len(hist) > 0 /\ LastOp.kind = "reset") => ign = DefaultIgn
+                 /\ \A k \in 2..Len(hist) : (hist[k - 1].op.kind = "reset" /\ hist[k].op.kind = "call") => hist[k].ign = DefaultIgn
 \* showing everything restores the original behaviour for the six categories
 ShowAllRestores == (Len(hist) > 0 /\ LastOp.kind = "targets" /\ LastOp.show = AllCats) => ign = DefaultIgn
 \* the flags are idempotent
